@@ -77,6 +77,7 @@ type Outcome struct {
 	Ticks      int64             `json:"ticks"`
 	Desc       string            `json:"desc,omitempty"` // human-readable case description (filled on demand)
 	Exports    map[string]string `json:"exports,omitempty"`
+	Sched      uint64            `json:"sched,omitempty"` // schedule digest (multi-task worlds): sequence of running task ids
 }
 
 // ReplayFile is what is written for a violation / known finding.
